@@ -86,6 +86,18 @@ int main(int argc, char** argv) {
         }
         R.bound_done("all unordered triples of options x 8 placements (command line / file)");
     }
+    // the documented special value /dev/null ("none") for the file-name options, on either source, with and without a config file being loaded
+    for (const char* on : {"output", "InitialDistFile"}) for (int pl = 0; pl < 5; pl++) {
+        std::string kase = std::string("devnull ") + on + " placement=" + std::to_string(pl);
+        if (!R.mine(kase)) continue;
+        std::vector<Setting> cli, cfg;
+        if (pl == 0) cli = {{on, "/dev/null"}};                                          // command line only, no config file
+        if (pl == 1) { cli = {{on, "/dev/null"}}; cfg = {{on, "old_run.h5"}}; }           // command line beats the name in the file
+        if (pl == 2) cfg = {{on, "/dev/null"}};                                          // in the file
+        if (pl == 3) { cli = {{on, "/dev/null"}}; cfg = {{"GridSize", "64"}}; }           // command line, an unrelated config file is loaded
+        if (pl == 4) { cli = {{on, "new.h5"}}; cfg = {{on, "/dev/null"}}; }
+        expect_ok(kase, std::string("C20/special-value-dev-null/") + on, cli, cfg);
+    }
     // aliases: current name x {absent, cli, cfg, cli+cfg} x alias x {absent, cfg} (alias and current name both in the file: the current name wins)
     for (auto& al : ALIASES) for (int cur = 0; cur < 4; cur++) for (int ali = 0; ali < 2; ali++) for (int v = 0; v < 2; v++) {
         const Opt* o = find(al.canonical);
